@@ -135,6 +135,8 @@ class User:
 class Provider:
     """The real integration, with deterministic generators and an observable store."""
 
+    PREFIX = "temporary_credential:verif:"
+
     def __init__(self, supported, clock, op=None, namegen=None):
         """op(name): called at the top of every storage callback (C19 fault injection);
         namegen(prefix) -> fresh credential name (default: prefix + n times 'x')."""
@@ -165,7 +167,8 @@ class Provider:
 
         server = AuthorizationServer(app, query_client=lambda cid: reg.get(cid), token_generator=token_generator)
         register_nonce_hooks(server, self.cache)
-        register_temporary_credential_hooks(server, self.cache)
+        # (a key prefix of the deployment's own, as the helper allows: every hook uses it)
+        register_temporary_credential_hooks(server, self.cache, key_prefix=self.PREFIX)
 
         def create_token_credential(token, temporary_credential):
             op("create_token_credential")
